@@ -67,6 +67,11 @@ def run(rep, tier, replay):
                 c = sched.Case("%s x%d|d W=%d" % (name, k, W), ["-d", "-n", str(W)], d, {}, kind="expand", timeout=300, outnull=True)
                 c.series, c.k, c.W = ("d", name, W), k, W
                 rcases.append(c)
+        # a consumer slower than the workers: every output slot fills (the regime in which oversized buffers show)
+        for k, d in zip(sizes, series["bomb"]):
+            c = sched.Case("bomb slow writer x%d|d W=%d" % (k, W), ["-d", "-n", str(W)], d, {"VERIF_DELAY": "write:0=4000"}, kind="expand", timeout=600, outnull=True)
+            c.series, c.k, c.W = ("d", "bomb_slow_writer", W), k, W
+            rcases.append(c)
         for name, datas in series_c.items():
             for k, d in zip(sizes, datas):
                 for u in (False, True):
